@@ -160,3 +160,34 @@ def c14_reditools_two_genes(g1s: int, g1e: int, plus1: bool, g2s: int, g2e: int,
     post: _ >= 0
     """
     return _two_genes(g1s, g1e, plus1, g2s, g2e, plus2, x0, x1, y0, y1, pos1)
+
+
+def _multi_subs(cc, cg, ct, min_alt, f_i, order):
+    """site with reference A (10 reads) and THREE listed substitutions A>C, A>G, A>T in every order: each substitution is
+    accepted or rejected on its own read count / frequency, whatever comes before it in AllSubs"""
+    counts = [10, cc, cg, ct]
+    total = sum(counts)
+    perm = [[0, 1, 2], [0, 2, 1], [1, 0, 2], [1, 2, 0], [2, 0, 1], [2, 1, 0]][order]
+    subs = [('A', 'CGT'[i]) for i in perm]
+    got = _rec(5, counts, subs, -1).get_valid_subs(min_alt, FREQS[f_i], 0, 0)
+    num, den = FNUM[f_i]
+    want = []
+    for ref, alt in subs:
+        rc = counts['ACGT'.index(alt)]
+        if rc >= min_alt and rc * den >= num * total:
+            want.append((ref, alt))
+    return OK if got == want else -10
+
+
+@cond('C14', bounds='REDItools site with three listed substitutions in every order; ALT read counts in {0, 2, 5} each, '
+      'UNBOUNDED symbolic --min-coverage-alt, frequency cut-off in {0, 0.1, 0.5}', encodes=ENC, codes=CODES, tokens=True,
+      timeout=600)
+def c14_reditools_multi_subs(cc: int, cg: int, ct: int, min_alt: int, f_i: int, order: int) -> int:
+    """
+    pre: 0 <= cc <= 2 and 0 <= cg <= 2 and 0 <= ct <= 2
+    pre: 0 <= f_i <= 2 and 0 <= order <= 5
+    post: _ >= 0
+    """
+    lv = [0, 2, 5]
+    return _multi_subs(lv[concretize(cc, 0, 2)], lv[concretize(cg, 0, 2)], lv[concretize(ct, 0, 2)], min_alt,
+                       [0, 1, 3][concretize(f_i, 0, 2)], concretize(order, 0, 5))
